@@ -44,6 +44,8 @@ enum Op {
     SetPeer(u64),
     /// a read-only call: 0 offsets, 1 is_cancelled, 2 cancel_reason, 3 timestamps, 4 peer, 5/6 replay_chunks_from
     Query(u8),
+    /// (setup only) the producer took the staged resume: `wait_for_reconnect(0)`
+    Take,
 }
 
 impl Op {
@@ -57,6 +59,7 @@ impl Op {
             Op::Push(o, l) => format!("push:{}:{}", o, l),
             Op::SetPeer(p) => format!("peer:{}", p),
             Op::Query(k) => format!("q:{}", k),
+            Op::Take => "take".to_string(),
         }
     }
     fn parse(w: &str) -> Option<Op> {
@@ -70,6 +73,7 @@ impl Op {
             ("push", 3) => Op::Push(p[1].parse().ok()?, p[2].parse().ok()?),
             ("peer", 2) => Op::SetPeer(p[1].parse().ok()?),
             ("q", 2) => Op::Query(p[1].parse().ok()?),
+            ("take", 1) => Op::Take,
             _ => return None,
         })
     }
@@ -170,6 +174,7 @@ fn apply(tc: &TransferControl, op: &Op) -> OpRes {
         },
         Op::Push(o, l) => { tc.push_replay(*o, *l, (o ^ l) % 3 == 0, vec![0u8; push_body_len(*o, *l)]); OpRes::Unit }
         Op::SetPeer(p) => { tc.set_peer(dummy_peer(*p)); OpRes::Unit }
+        Op::Take => { let _ = tc.wait_for_reconnect(Duration::ZERO); OpRes::Unit }
         Op::Query(k) => {
             match k % 7 {
                 0 => { let _ = tc.offsets(); }
@@ -1179,6 +1184,160 @@ fn log_sq(out: &mut Out, r: SqResult, idx: &mut u64) {
     }
 }
 
+
+// ------------------------------------------------------------------------------------------
+// An independent reading of the documented semantics, driven by the op history alone (never by the
+// control's own getters): what the waiter's condition is after a known sequence of calls.
+// ------------------------------------------------------------------------------------------
+#[derive(Clone, Debug)]
+struct Spec { window: u64, sent: u64, acked: u64, file: u32, cancelled: Option<u64>, pending: Option<u64>, ring: Vec<(u64, u64)> }
+
+impl Spec {
+    fn new(window: u64) -> Spec { Spec { window, sent: 0, acked: 0, file: 0, cancelled: None, pending: None, ring: vec![] } }
+    fn covers(&self, off: u64) -> bool {
+        match self.ring.last() {
+            None => off == 0,
+            Some(l) => self.ring.iter().any(|c| c.0 == off) || l.0.checked_add(l.1) == Some(off),
+        }
+    }
+    fn apply(&mut self, op: &Op) {
+        match op {
+            Op::Sent(n) => if *n > self.sent { self.sent = *n },
+            Op::Ack(f, o) => if *f == self.file { let c = (*o).min(self.sent); if c > self.acked { self.acked = c } },
+            Op::Cancel(r) => if self.cancelled.is_none() { self.cancelled = Some(*r) },
+            Op::Adv(f) => { self.file = *f; self.sent = 0; self.acked = 0; self.ring.clear(); self.pending = None }
+            Op::Res(f, o) => if self.cancelled.is_none() && *f == self.file && self.covers(*o) {
+                self.pending = Some(*o);
+                if *o > self.acked && *o <= self.sent { self.acked = *o }
+            },
+            Op::Push(o, l) => self.ring.push((*o, *l)),
+            Op::Take => self.pending = None,
+            Op::SetPeer(_) | Op::Query(_) => {}
+        }
+    }
+    fn acceptable(&self, kind: &Kind) -> Vec<Got> {
+        acceptable(kind, self.window, self.sent, self.acked, &self.cancelled.map(reason_text), self.pending)
+    }
+}
+
+// ------------------------------------------------------------------------------------------
+// `life`: one control lived through 4-6 waits of both kinds, with ops before and during them; every
+// later wait must behave as on a fresh control in the same abstract state (logged as `sq` lines whose
+// setup is the whole history, so the model judges exactly that)
+// ------------------------------------------------------------------------------------------
+fn run_life(seed: u64) -> SqResult {
+    let mut rng = Rng::new(seed);
+    let w = world(&mut rng);
+    let mut hist: Vec<Op> = w.setup.clone();
+    let tc = make_control(w.window, &hist);
+    let mut spec = Spec::new(w.window);
+    for op in &hist { apply(&tc, op); spec.apply(op); }
+    let mut res = SqResult { kind: Kind::Reconnect, lines: vec![], fails: vec![] };
+    let mut reason = 0u64;
+    let rounds = rng.range(4, 6);
+    for round in 0..rounds {
+        // something happens between two waits
+        for _ in 0..rng.below(3) {
+            let op = match rng.below(6) {
+                0 => Op::Sent(spec.sent.saturating_add(rng.range(1, 5) * w.scale)),
+                1 => Op::Ack(spec.file, spec.acked.saturating_add(rng.below(3))),
+                2 => Op::Query(rng.below(7) as u8),
+                3 => Op::SetPeer(rng.below(4)),
+                4 => Op::Res(spec.file, spec.ring.last().map(|l| l.0 + l.1).unwrap_or(0).saturating_add(1 + rng.below(2))),  // not covered
+                _ => Op::Ack(other_file(&mut rng, spec.file), u64::MAX),
+            };
+            apply(&tc, &op); spec.apply(&op); hist.push(op);
+        }
+        let kind = if rng.chance(1, 2) { Kind::Reconnect } else {
+            let inf = spec.sent.saturating_sub(spec.acked);
+            Kind::Credit(*rng.pick(&[0u64, 1, w.len, spec.window, spec.window.saturating_sub(inf).saturating_add(1), u64::MAX]))
+        };
+        let fam = match kind { Kind::Credit(_) => "wake.credit", Kind::Reconnect => "wake.reconnect" };
+        let (k, len) = match &kind { Kind::Credit(l) => ("credit", *l), Kind::Reconnect => ("reconnect", 0) };
+        let at_entry = spec.acceptable(&kind);
+        // what happens during this wait
+        let enabling: Option<Op> = if !at_entry.is_empty() || rng.chance(2, 5) { None } else {
+            Some(match (&kind, rng.below(4)) {
+                (_, 0) => { reason += 1; Op::Cancel(reason) }
+                (Kind::Reconnect, _) => Op::Res(spec.file, spec.ring.last().map(|l| l.0 + l.1).unwrap_or(0)),
+                (Kind::Credit(_), 1) => Op::Adv(other_file(&mut rng, spec.file)),
+                (Kind::Credit(_), _) => Op::Ack(spec.file, spec.sent),
+            })
+        };
+        let d = if enabling.is_some() { Duration::from_millis(1500) } else { Duration::from_millis(2 + rng.below(14)) };
+        let (tx, rx) = mpsc::channel::<(Got, Instant, Instant)>();
+        let waiter = {
+            let (tc, kind) = (tc.clone(), kind.clone());
+            std::thread::spawn(move || {
+                let t0 = Instant::now();
+                let deadline = t0 + d;
+                let r = catch(|| match kind {
+                    Kind::Credit(len) => match tc.wait_for_credit(len, deadline) {
+                        Ok(()) => Got::Ok,
+                        Err(CreditError::Cancelled(r)) => Got::Cancelled(r),
+                        Err(CreditError::Timeout) => Got::Timeout,
+                    },
+                    Kind::Reconnect => match tc.wait_for_reconnect(d) {
+                        ReconnectOutcome::ResumeReady(p) => Got::Resume(p.resume_at_offset),
+                        ReconnectOutcome::Cancelled(r) => Got::Cancelled(r),
+                        ReconnectOutcome::Timeout => Got::Timeout,
+                    },
+                });
+                let t1 = Instant::now();
+                let _ = tx.send((r.unwrap_or(Got::Panic), deadline, t1));
+            })
+        };
+        let mut thr = "-".to_string();
+        let mut op_done = None;
+        let mut after_op: Vec<Got> = vec![];
+        if let Some(op) = &enabling {
+            std::thread::sleep(Duration::from_micros(rng.below(3000)));
+            apply(&tc, op);
+            op_done = Some(Instant::now());
+            spec.apply(op);
+            after_op = spec.acceptable(&kind);
+            thr = op.show();
+        }
+        let r = rx.recv_timeout(d + WATCHDOG).ok();
+        let (sent, acked) = catch(|| tc.offsets()).unwrap_or((0, 0));
+        let cancelled = catch(|| tc.is_cancelled()).unwrap_or(true);
+        let fin = format!("{}:{}:{}", sent, acked, if cancelled { 1 } else { 0 });
+        let got = r.as_ref().map(|x| x.0.clone()).unwrap_or(Got::Parked);
+        let line = format!("sq IDX {} {} {} setup={} thr={} order=- got={} fin={}", k, len, w.window, show_ops(&hist), thr, got.show(), fin);
+        let nth = format!("wait {} of {} in the life of one control ({} ms deadline)", round + 1, rounds, d.as_millis());
+        match &r {
+            None => {
+                res.fails.push((format!("{}.timeout.never", fam), format!("{}: no return within deadline + 10 s", nth), line.clone()));
+                let _ = catch(|| tc.cancel("cleanup"));
+                let _ = rx.recv_timeout(WATCHDOG);
+            }
+            Some((g, deadline, t1)) => {
+                if !at_entry.is_empty() {
+                    if !at_entry.contains(g) {
+                        let sig = if *g == Got::Timeout { "timeout.before_condition" } else { "value.at_entry" };
+                        res.fails.push((format!("{}.{}", fam, sig), format!("{}: by the history of calls the condition holds at entry (expected {}), the wait returned {}", nth,
+                            at_entry.iter().map(|x| x.show()).collect::<Vec<_>>().join(" or "), g.show()), line.clone()));
+                    }
+                } else if *g == Got::Timeout && t1 < deadline {
+                    res.fails.push((format!("{}.timeout.early", fam), format!("{}: Timeout returned {} ms before this wait's own deadline", nth, deadline.saturating_duration_since(*t1).as_millis()), line.clone()));
+                } else if *g == Got::Timeout && !after_op.is_empty() && op_done.map(|t| t < *deadline).unwrap_or(false) {
+                    res.fails.push((format!("{}.missed_wakeup", fam), format!("{}: {} completed {} ms before the deadline and makes the condition true, the wait slept on to its deadline", nth, thr,
+                        deadline.saturating_duration_since(op_done.unwrap()).as_millis()), line.clone()));
+                } else if *g != Got::Timeout && !after_op.contains(g) {
+                    res.fails.push((format!("{}.value.unjustified", fam), format!("{}: returned {} but by the history of calls the condition {}", nth, g.show(),
+                        if after_op.is_empty() { "never held".to_string() } else { format!("gives {}", after_op.iter().map(|x| x.show()).collect::<Vec<_>>().join(" or ")) }), line.clone()));
+                }
+            }
+        }
+        if r.is_some() { let _ = waiter.join(); }
+        res.lines.push((line, format!("IDX {} {}", got.show(), fin)));
+        if r.is_none() { break; }
+        if let Some(op) = enabling { hist.push(op); }
+        if let Got::Resume(_) = got { spec.apply(&Op::Take); hist.push(Op::Take); }
+    }
+    res
+}
+
 // ------------------------------------------------------------------------------------------
 // `race`: many fast rounds, waiter and signaller released together, start offset swept
 // ------------------------------------------------------------------------------------------
@@ -1304,10 +1463,16 @@ fn race_batch(out: &mut Out, rounds: Vec<RaceRound>, idx: &mut u64, until: Insta
         }
         let (sent, acked) = catch(|| tc.offsets()).unwrap_or((0, 0));
         let cancelled = catch(|| tc.is_cancelled()).unwrap_or(true);
-        let must_return = cancelled || match &r.kind {
+        let must_real = cancelled || match &r.kind {
             Kind::Credit(len) => { let inf = sent.saturating_sub(acked); credit_fits(inf, *len, r.window) }
             Kind::Reconnect => results.iter().any(|x| matches!(x, OpRes::ResumeOk(_))),
         };
+        // the same question answered from the history of calls alone (one signaller: the order is known)
+        let mut spec = Spec::new(r.window);
+        for op in r.setup.iter().chain(r.ops.iter()) { spec.apply(op); }
+        let must_spec = !spec.acceptable(&r.kind).is_empty();
+        if must_spec != must_real { out.count("race.history_vs_getters_disagree"); }
+        let must_return = must_real || must_spec;
         let returned = wait_done(i, if must_return { RACE_WATCHDOG } else { Duration::from_millis(2) });
         let mut cleanup_missed = false;
         let got = if returned { slots[i].lock().unwrap().clone().unwrap_or(Got::Panic) } else {
@@ -1387,7 +1552,7 @@ fn main() {
     let mut out = Out::new(&args.out);
     out.flush_each = true;
     let mut rng = Rng::new(args.seed);
-    out.rule = "one real thread in wait_for_credit/wait_for_reconnect (deadline 1 h) on a TransferControl whose window is full; the harness waits until /proc shows the waiter asleep (70%) or races its entry (30%); then 1-3 ops (ack: exact/insufficient/capped/stale/foreign, cancel, advance, resume: covered/uncovered/foreign, sent) from 1-3 threads with random yields/spins, signallers serialised by a harness lock (linearisation recorded) or free; values scaled by 1..2^40; 3/8 of the worlds sit on a boundary of the credit rule (window 0, chunk_len 0, chunk_len = window, oversized chunk) and enabling acks land in-flight exactly on the grant boundary or on 0. Oracles: condition true in the real final state => waiter returns within 10 s; never Timeout; returned value matches a state that occurred. `tmo` cases: 1-31 ms deadline, 0-3 ops that cannot satisfy the condition (many of them notify), spread over the wait, must return Timeout, not before the deadline. `imm` cases: deadline already passed at entry and condition already true: the matching value must be returned, not Timeout. `race` rounds: waiter and signaller released together from a spin barrier, start offset swept (signaller 0-200 spins later / waiter 0-64 spins later / a non-enabling wake-up then the enabling one 0-4000 spins apart), last op makes the condition true, 5 s watchdog. `multi` cases: 2-4 waiters of mixed kinds (credit with different chunk lengths, reconnect) parked on one control, 1-3 ops: every waiter whose condition holds in the final state must return, a staged resume must be taken by exactly one reconnect waiter, one cancel releases all the rest. `wd`: the registry's idle watchdog (200 ms idle timeout) cancels two idle transfers whose producers are parked: both must return Cancelled(transfer idle). `sq` cases: 2-3 waits one after the other on the SAME control: 1-2 short ones (1-12 ms) that must time out, then one with a fresh 40-120 ms deadline during which, in 3/5 of the cases, an enabling op arrives: never Timeout before that wait's own deadline, never Timeout when the op completed before it. `trk` cases: 300-400 ms deadline, a non-enabling ack every ~deadline/4, must return Timeout no later than deadline + 3 s. Non-trivial = the final state obliges the waiter to return, or a tmo case; distinct by op line (incl. observed order/outcome)".into();
+    out.rule = "one real thread in wait_for_credit/wait_for_reconnect (deadline 1 h) on a TransferControl whose window is full; the harness waits until /proc shows the waiter asleep (70%) or races its entry (30%); then 1-3 ops (ack: exact/insufficient/capped/stale/foreign, cancel, advance, resume: covered/uncovered/foreign, sent) from 1-3 threads with random yields/spins, signallers serialised by a harness lock (linearisation recorded) or free; values scaled by 1..2^40; 3/8 of the worlds sit on a boundary of the credit rule (window 0, chunk_len 0, chunk_len = window, oversized chunk) and enabling acks land in-flight exactly on the grant boundary or on 0. Oracles: condition true in the real final state => waiter returns within 10 s; never Timeout; returned value matches a state that occurred. `tmo` cases: 1-31 ms deadline, 0-3 ops that cannot satisfy the condition (many of them notify), spread over the wait, must return Timeout, not before the deadline. `imm` cases: deadline already passed at entry and condition already true: the matching value must be returned, not Timeout. `race` rounds: waiter and signaller released together from a spin barrier, start offset swept (signaller 0-200 spins later / waiter 0-64 spins later / a non-enabling wake-up then the enabling one 0-4000 spins apart), last op makes the condition true, 5 s watchdog. `multi` cases: 2-4 waiters of mixed kinds (credit with different chunk lengths, reconnect) parked on one control, 1-3 ops: every waiter whose condition holds in the final state must return, a staged resume must be taken by exactly one reconnect waiter, one cancel releases all the rest. `wd`: the registry's idle watchdog (200 ms idle timeout) cancels two idle transfers whose producers are parked: both must return Cancelled(transfer idle). `sq` cases: 2-3 waits one after the other on the SAME control: 1-2 short ones (1-12 ms) that must time out, then one with a fresh 40-120 ms deadline during which, in 3/5 of the cases, an enabling op arrives: never Timeout before that wait's own deadline, never Timeout when the op completed before it. `life` cases: one control through 4-6 waits of both kinds (chunk_len 0/1/window/u64::MAX...), ops between and during the waits, later waits after Timeout / Ok / ResumeReady (resume consumed) / Cancelled results; expectations come from a harness-side reading of the call history (not from the control's getters). `trk` cases: 300-400 ms deadline, a non-enabling ack every ~deadline/4, must return Timeout no later than deadline + 3 s. Non-trivial = the final state obliges the waiter to return, or a tmo case; distinct by op line (incl. observed order/outcome)".into();
     let mut idx = 0u64;
     if let Some(lines) = args.replay_ops() {
         for l in lines {
@@ -1443,6 +1608,8 @@ fn main() {
             let seed = rng.next();
             std::thread::spawn(move || run_sq(c, seed))
         }).collect();
+        let n_life = if args.thorough() { 160 } else { 24 };
+        let life: Vec<_> = (0..n_life).map(|_| { let seed = rng.next(); std::thread::spawn(move || run_life(seed)) }).collect();
         let wdog = { let seed = rng.next(); std::thread::spawn(move || run_watchdog_case(seed)) };
         // entry races
         let (n_race, race_budget) = if args.thorough() { (400000, Duration::from_secs(150)) } else { (30000, Duration::from_secs(8)) };
@@ -1488,6 +1655,9 @@ fn main() {
         }
         for h in sq {
             if let Ok(r) = h.join() { log_sq(&mut out, r, &mut idx); }
+        }
+        for h in life {
+            if let Ok(r) = h.join() { out.count("life.controls"); log_sq(&mut out, r, &mut idx); }
         }
         if let Ok(r) = wdog.join() {
             for (sig, detail, line) in &r.fails { out.oracle_fail(sig, detail, &[line.clone()]); }
